@@ -1,4 +1,4 @@
-import CattrsModel.Disambig.Lemmas
+import CattrsModel.Disambig.Values
 /-!
 # C12 — automatic union disambiguation never picks the wrong class; it refuses instead
 
@@ -188,6 +188,17 @@ theorem C12_fuel_irrelevant (so : SetOrder) (t : Table) (ms : List Nat) (p : Pay
     (h : ms.length ≤ n) (h0 : 0 < ms.length) : resolveF sortStr so t n ms p = resolve so t ms p :=
   resolveF_fuel_irrelevant sortStr so t p n ms.length ms h (Nat.le_refl _) (by omega) h0
 
+/-- **C12_only_keys_and_literal_values.**  The choice of the member depends on the KEYS of the payload and on the values
+under `Literal`-typed attribute names only: two payloads that agree there get the same outcome, for every union, member
+order and set iteration order.  So the value types of the other attributes — containers, nested classes, the `T` of a
+generic class and what the parametrisation `K[arg]` binds it to — cannot make the disambiguator pick another member (the
+code works on `get_origin(cl) or cl`; what it must hand back is the member as written, which the check's oracle
+observes on the structured result). -/
+theorem C12_only_keys_and_literal_values (so : SetOrder) (t : Table) (hasNone : Bool) (ms : List Nat)
+    (p p' : Payload) (h : SameView t p p') :
+    unionStructure so t hasNone ms (some p) = unionStructure so t hasNone ms (some p') :=
+  unionStructure_sameView so t hasNone ms p p' h
+
 /-! ## non-vacuity: concrete unions satisfying the hypotheses -/
 
 /-- `A{x,a} | B{x,y} | C{y}` (all required): the union on which the pre-repair single pass depended on the
@@ -247,6 +258,13 @@ example : resolve SetOrder.id tSub [2, 0, 1] [("t1", 1), ("t2", 10), ("u", 5)] =
 example : resolve SetOrder.id tSub [1, 2, 0] [("t1", 1), ("t2", 10)] = .ok 0 := by decide
 example : unionStructure SetOrder.id tSub true [1, 2, 0] Option.none = .none := by decide
 example : unionStructure SetOrder.id tSub true [1] (some [("t1", 1), ("t2", 10), ("u", 5)]) = .ok 1 := by decide
+
+/-- non-vacuity of `C12_only_keys_and_literal_values`: on `tSub` the value under the non-literal key `u` is irrelevant
+(`5` vs `0`: what the check sends for a container or a nested instance), the values under `t1`, `t2` are not -/
+example : SameView tSub [("t1", 1), ("t2", 10), ("u", 5)] [("t1", 1), ("t2", 10), ("u", 0)] :=
+  sameViewB_sound (by decide)
+example : unionStructure SetOrder.id tSub false [2, 0, 1] (some [("t1", 1), ("t2", 10), ("u", 0)]) = .ok 1 := by decide
+example : unionStructure SetOrder.id tSub false [2, 0, 1] (some [("t1", 2), ("t2", 11), ("u", 0)]) ≠ .ok 1 := by decide
 
 /-! ## regression witness for finding F22 (repaired by `sorted(discriminators)`) -/
 
